@@ -53,6 +53,14 @@ impl Fragments {
             fragment_size + 1
         };
 
+        if fragment_size == 0 {
+            // no data and no explicit fragment size: nothing to encapsulate,
+            // just like empty data with an explicit fragment size
+            return Fragments {
+                fragments: Vec::new(),
+            };
+        }
+
         let number_of_fragments = (data.len() as f32 / fragment_size as f32).ceil() as u32;
 
         // Calculate the encapsulated size. If necessary pad the vector with zeroes so all the
